@@ -34,6 +34,16 @@ def gen_case(rng, name):
     positive = name in ("SumScaler", "VectorScaler", "MaxAbsScaler", "MaxScaler") and rng.random() < 0.7
     mtx = gen.values(rng, n, m, mode, positive=positive)
     w = gen.weights(rng, m, rng.choice(["dyadic", "int", "float"] if n < 60 else ["dyadic", "int"]))
+    if name == "MinMaxScaler" and m >= 2 and n < 60 and rng.random() < 0.15:
+        # data that already lives in the target range as a WHOLE (shares in [0, 1], marks from 1 to 10): the smallest
+        # value of the matrix is the lower end and the largest one the upper end, but no single criterion spans it
+        lo, hi = cfg["params"]["criteria_range"]
+        if lo < hi:
+            mtx = [[lo + (hi - lo) * rng.randint(3, 12) / 16.0 for _ in range(m)] for _ in range(n)]
+            j1, j2 = rng.sample(range(m), 2)
+            mtx[rng.randrange(n)][j1] = float(lo)
+            mtx[rng.randrange(n)][j2] = float(hi)
+            mode = "dyadic"
     if name == "PushNegatives":
         for j in range(m):
             if rng.random() < 0.5:
